@@ -83,6 +83,47 @@ def stream_errors(ctx, w, rule):
     ctx.floor(f"visitors examined ({rule})", n, 20)
 
 
+def tree_link_rule(ctx, w):
+    """The reviewed `expect`s of ruma_html::html (parent_and_index: "child should be in parent's children") rest on one invariant of the tree:
+    a node's `parent` link is set exactly while it is in that parent's `children` list. The invariant is kept by pairing, which is decided
+    here: a function that takes nodes out of a `children` vector also resets a `parent` link, and a function that puts a node into one also
+    sets it. (html5ever calls reparent_children for misnested formatting elements; a stale link there panics in the next detach.)"""
+    rule = "C17.tree-links"
+    ctx.rule(rule, "ruma_html::html: every function that removes from a Vec<NodeRef> of children (take / remove / clear / drain / pop ..) also clears an "
+                   "Option<Weak<Node>> parent link (take / replace / set), and every function that inserts into one (push / insert / append / extend) also writes a parent link")
+    if "ruma_html" not in w.crates:
+        return
+    REMOVE = {"take", "remove", "clear", "drain", "truncate", "pop", "swap_remove", "retain", "split_off", "replace"}
+    INSERT = {"push", "insert", "append", "extend", "extend_from_slice", "insert_many"}
+    n = 0
+    for g in w.crates["ruma_html"].all_fns():
+        if "body" not in g or "ruma_html::html::" not in g["path"]:
+            continue
+        rem, ins, par = [], [], []
+        for body in M.all_bodies(g):
+            for _, c in M.calls(body):
+                name = M.callee_name(c)
+                last = name.rsplit("::", 1)[-1]
+                fa = " ".join(c.get("fnargs") or [])
+                on_children = ("Vec<ruma_html::html::NodeRef>" in fa) or ("alloc::vec::Vec" in name and fa.startswith("ruma_html::html::NodeRef"))
+                on_parent = "Option<alloc::rc::Weak<ruma_html::html::Node>>" in fa
+                if on_children and last in REMOVE:
+                    rem.append(last)
+                if on_children and last in INSERT:
+                    ins.append(last)
+                if on_parent and last in ("take", "replace", "set", "swap"):
+                    par.append(last)
+        if not rem and not ins:
+            continue
+        n += 1
+        key = PC.key_path(g["path"])
+        ctx.check(bool(par), rule, f"{rule}:{key}", w.where(g),
+                  bad_msg=f"{g['path']} changes a children list ({sorted(set(rem + ins))}) without writing a parent link: a node keeps a parent whose children no longer "
+                          f"contain it (or the reverse), and the next detach()/insert_before_sibling() panics in parent_and_index ('child should be in parent\'s children') - "
+                          f"reachable from Html::parse on misnested formatting tags")
+    ctx.floor("functions of ruma_html::html that change a children list", n, 4)
+
+
 def run(ctx):
     fx = ctx.facts("A")
     w = W.World(fx, CRATES)
@@ -92,6 +133,7 @@ def run(ctx):
     # the validators guarantee the shape the accessors assume: the rules that establish that shape are part of this property
     from . import C10
     C10.invariant_rules(ctx, w)
+    tree_link_rule(ctx, w)
 
     if ctx.tier == "thorough":
         # build configuration B: the API crates with client+server features (generated request/response conversions, the multipart
